@@ -264,8 +264,12 @@ func replayInner(c *core.Ctx, doc json.RawMessage) (bool, string, error) {
 	if err := json.Unmarshal(doc, &r); err != nil {
 		return false, "", err
 	}
-	if needsOpenAPI[r.Check] {
-		ex, err := prepareOpenAPI(c, 9000, []*schema.Schema{r.Schema})
+	if needsOpenAPI[r.Check] || needsTS[r.Check] {
+		prep := prepareOpenAPI
+		if needsTS[r.Check] {
+			prep = prepareTS
+		}
+		ex, err := prep(c, 9000, []*schema.Schema{r.Schema})
 		if err != nil {
 			return false, "", err
 		}
@@ -327,4 +331,7 @@ func raceExcerpt(out string) string {
 }
 
 // needsOpenAPI lists inner checks that read emitted OpenAPI documents.
-var needsOpenAPI = map[string]bool{"c06": true, "c07": true}
+var needsOpenAPI = map[string]bool{"c06": true}
+
+// needsTS lists inner checks that load emitted TypeScript modules.
+var needsTS = map[string]bool{"c08": true, "c07": true, "c03": true}
